@@ -52,9 +52,9 @@ POOL = [
     M.rt_make({"A": 2, "B": 1}, {"C": 1}, ir={"A": 1}),  # 3 A + B -> C; rate k A^2 B
     M.rt_make({"A": 1, "C": 1}, {"B": 1, "C": 1}),  # catalyst
     M.rt_make({"C": 1}, {"A": 2}, ip={"A": 1}),  # C -> 3 A
+    M.rt_make({"A": 1, "B": 1}, {"B": 2}),  # autocatalysis
     M.rt_make({"A": 1}, {"B": 1}),  # same stoichiometry as 0, own constant
     M.rt_make({"B": 2}, {"A": 1, "C": 1}),
-    M.rt_make({"A": 1, "B": 1}, {"B": 2}),  # autocatalysis
     M.rt_make({"B": 1}, {"C": 1}, ir={"C": 1}),  # C inactive reactant and product
     M.rt_make({"C": 2}, {"A": 1, "B": 1}, ip={"B": 1}),
     M.rt_make({"C": 1}, {"A": 1, "B": 1}),
@@ -66,18 +66,20 @@ ORDERS = ["sorted", "unsorted", "extra"]
 
 
 def _tier(tier):
+    # single-reaction systems always get the full configuration product (maxdev 6, including the trivially refused combinations)
     if tier == "quick":
-        return dict(pool=8, L=3, maxdev=2)
-    return dict(pool=10, L=3, maxdev=3)
+        return dict(pool=7, L=3, maxdev=3)
+    return dict(pool=10, L=3, maxdev=6)
 
 
 def bounds(tier):
     t = _tier(tier)
-    return dict(pool=t["pool"], max_list_len=t["L"], max_deviations=t["maxdev"], configurations=len(configs(t["maxdev"])),
+    return dict(pool=t["pool"], max_list_len=t["L"], max_deviations=t["maxdev"], configurations=len(configs(t["maxdev"])), configurations_single_reaction=len(configs(6, True)),
+                excluded_for_lists_of_2_or_more="substitution of a rate-constant key when the constants are plain numbers; feed-ratio substitution without stirred tank (both refused by construction, explored on all single-reaction systems)",
                 dims=dict(builder=["get_odesys", "_create_odesys"], param_mode=["%s/include_params=%s" % p for p in PMODES], substitution=SUBSTS, cstr=[False, True], order=ORDERS))
 
 
-def configs(maxdev):
+def configs(maxdev, with_trivially_refused=False):
     out = []
     for builder in ("get", "create"):
         for pm in PMODES:
@@ -88,7 +90,9 @@ def configs(maxdev):
                     continue
                 for cstr in (False, True):
                     for order in ORDERS:
-                        dev = (builder != "get") + (pm != (("num", True) if builder == "get" else ("named", False))) + (subst != "none") + cstr + (order != "sorted")
+                        dev = (builder != "get") + (pm != (("num", True) if builder == "get" else ("named", False))) + (subst != "none") + cstr + {"sorted": 0, "unsorted": 1, "extra": 2}[order]
+                        if not with_trivially_refused and ((pm[0] == "num" and subst in ("numfirst", "numlast", "expr", "exprU")) or (subst == "frnum" and not cstr)):
+                            continue
                         if dev <= maxdev:
                             out.append((dev, dict(builder=builder, style=pm[0], ip=pm[1], subst=subst, cstr=cstr, order=order)))
     out.sort(key=lambda x: x[0])
@@ -104,7 +108,7 @@ def _lists(n, L):
 def chunks(tier):
     t = _tier(tier)
     n = t["pool"]
-    out = [("L1",)]
+    out = [("L1", i) for i in range(len(POOL))]
     out += [("L", i, j) for i in range(n) for j in range(n) if i != j]  # lists starting i, j
     return out
 
@@ -315,11 +319,16 @@ def check_pair(res, cfg, idxs, rts):
     if names != list(rsys.substances.keys()) or names != order or len(odesys.dep) != len(names) or len(odesys.exprs) != len(names):
         viol("names", "odesys.names = %r, substances %r" % (names, order), names, order)
         return False
-    # 2. parameter names
+    # 2. parameter names: exactly the free keys for documented inputs; for inputs without an acceptance expectation a
+    #    further *known* key is tolerated as long as the right-hand side does not depend on it (step 3 decides that)
     res.evaluations += 1
-    if len(set(pnames)) != len(pnames) or set(pnames) != free or len(odesys.params) != len(pnames):
+    unused = set(pnames) - free
+    strict = must_accept(cfg) is True
+    if len(set(pnames)) != len(pnames) or len(odesys.params) != len(pnames) or not free <= set(pnames) or (unused and (strict or not unused <= set(pval))):
         viol("param_names", "odesys.param_names = %r, expected the free keys %r" % (pnames, sorted(free)), sorted(pnames), sorted(free))
         ok = False
+    elif unused:
+        res.extra["accepted_with_unused_free_key"] = res.extra.get("accepted_with_unused_free_key", 0) + 1
     # 3. exact value after binding by name
     bind = {}
     for sym, nm in zip(odesys.dep, names):
@@ -362,7 +371,7 @@ def check_pair(res, cfg, idxs, rts):
             viol("rhs-symbolic", "exprs %s differ symbolically from the model %s for %r" % ([str(e) for e in odesys.exprs], [str(smodel[nm]) for nm in names], bad), [str(e) for e in odesys.exprs], [str(smodel[nm]) for nm in names])
             ok = False
     # 5. numeric callbacks (only meaningful when the parameter vector could be bound)
-    if not unknown and set(pnames) == free:
+    if not unknown and free <= set(pnames):
         y = np.array([float(ATOM[nm]) for nm in names])
         p = np.array([float(pval[nm]) for nm in pnames])
         res.evaluations += 1
@@ -395,7 +404,8 @@ def run_chunk(chunk, tier):
     cfgs = configs(t["maxdev"])
     n, L = t["pool"], t["L"]
     if chunk[0] == "L1":
-        lists = [(i,) for i in range(n)]
+        lists = [(chunk[1],)]
+        cfgs = configs(6, True)
     else:
         _, i, j = chunk
         lists = [(i, j)]
